@@ -11,14 +11,17 @@ EXHAUSTIVE = True
 RULE = ("TLC enumerates (a) every polyline of 1..4 segments over the steps (1,0),(2,0),(0,1),(0,2),(3,4),(4,3) with "
         "parallel offset boundaries - executed: Lanelet.distance once and interpolate_position at every arc length of "
         "the half-integer grid 0..length (incl. 0, every vertex, full length); (b) every pair of such lanes of 1..2 "
-        "segments joined end to start - executed: merge_lanelets in both argument orders; (c) every digraph without "
+        "segments joined end to start - executed: merge_lanelets in both argument orders x parts' cached distance "
+        "cold / already read, and every merged lanelet is then treated as a lanelet (distance + interpolate_position at "
+        "0, every vertex, every segment midpoint, full length, judged against its own vertices); (c) every digraph without "
         "self-loops on 3 lanelets x every start (quick) / on 4 lanelets with start 1, w.l.o.g. by relabelling "
         "(thorough: 4096 graphs) x lengths in {1,2}^n x ranges {1,2,3,5,100} - executed: "
         "find_lanelet_successors_in_range and find_lanelet_predecessors_in_range under a 5 s alarm. Plus seeded random "
         "cases beyond TLC's bounds: polylines of up to 10 vertices in all directions with steps from the triples "
         "3-4-5, 5-12-13, 8-15-17 (scaled), non-parallel (wedge) boundaries, arc lengths on the 1/2, 1/4, 1/8 grid; "
-        "merges of such lanes; digraphs on 5-6 lanelets with lengths 1..4 and ranges 1..15/100. "
-        "distinct_nontrivial = distinct polylines with >= 3 vertices + distinct merge pairs + distinct "
+        "merges of such lanes (1..6 segments per part, uneven spacing); chains of 2..4 joined lanes merged by "
+        "all_lanelets_by_merging_successors/predecessors_from_lanelet, each result treated as a lanelet; digraphs on 5-6 lanelets with lengths 1..4 and ranges 1..15/100. "
+        "distinct_nontrivial = distinct polylines with >= 3 vertices + distinct merge pairs + distinct chains + distinct "
         "(graph, lengths) pairs with at least one edge.")
 ASSUMPTIONS = ["polylines have >= 2 vertices and consecutive vertices are distinct (statement's quantifier); segment "
                "lengths are integers so that every expected value is an exact rational",
@@ -119,6 +122,18 @@ def _rand_merge_case(rng):
     return {"kind": "merge", "a": lane(ca), "b": lane(cb), "src": "random"}
 
 
+def _rand_chain_case(rng):
+    fams = ["axis"] + rng.sample(["p5", "p13", "p17"], rng.randint(0, 1))
+    ol, orr = (rng.randint(-3, 3), rng.randint(1, 3)), (rng.randint(-3, 3), -rng.randint(1, 3))
+    lanes, origin = [], (rng.randint(-20, 20), rng.randint(-20, 20))
+    for _ in range(rng.randint(2, 4)):
+        c = _poly(origin, _rand_steps(rng, rng.randint(1, 4), fams))      # different vertex counts, uneven spacing
+        origin = c[-1]
+        lanes.append({"l": [[x + ol[0], y + ol[1]] for x, y in c], "c": c,
+                      "r": [[x + orr[0], y + orr[1]] for x, y in c]})
+    return {"kind": "chain", "lanes": lanes, "range": rng.choice((1000, 1000, rng.randint(1, 30))), "src": "random"}
+
+
 def _rand_graph_case(rng):
     n = rng.choice((5, 6))
     p = rng.choice((0.15, 0.25, 0.4, 0.6))
@@ -154,6 +169,7 @@ def cases(ctx):
     k = 10 if ctx.thorough else 1
     out += [_rand_poly_case(rng) for _ in range(500 * k)]
     out += [_rand_merge_case(rng) for _ in range(200 * k)]
+    out += [_rand_chain_case(rng) for _ in range(150 * k)]
     out += [_rand_graph_case(rng) for _ in range(1000 * k)]
     return out
 
@@ -164,6 +180,8 @@ def nontrivial(case):
         return ("poly", t(case["c"]), t(case["l"]), t(case["r"])) if len(case["c"]) >= 3 else None
     if case["kind"] == "merge":
         return ("merge", t(case["a"]["c"]), t(case["b"]["c"]), t(case["a"]["l"]))
+    if case["kind"] == "chain":
+        return ("chain",) + tuple(t(ln["c"]) for ln in case["lanes"]) + (t(case["lanes"][0]["l"]), case["range"])
     if any(case["succ"]):
         return ("graph", t(case["succ"]), tuple(case["len"]))
     return None
@@ -221,18 +239,27 @@ def _int_cum(c):
     return out
 
 
-def _exec_poly(case):
-    c, le, r, sd, den = case["c"], case["l"], case["r"], case["sd"], case["den"]
-    cum = _int_cum(c)
-    sns = case.get("sns") or list(range(0, sd * cum[-1] + 1))
-    ev = []
-    la = _lanelet(1, le, c, r)
+def _shape(sn, sd, cum):
+    if sn == 0:
+        return "at-start"
+    if sn == sd * cum[-1]:
+        return "at-end"
+    if sn % sd == 0 and sn // sd in cum:
+        return "at-vertex"
+    return "interior"
+
+
+def _distance_event(la, c, den, sig, ev):
     st, d = _call(lambda: [float(v) for v in la.distance])
-    ev.append({"op": "distance", "sig": "distance", "st": st, "c": c, "den": den,
+    ev.append({"op": "distance", "sig": sig, "st": st, "c": c, "den": den,
                "res": [list(_grid(v, den)) for v in d] if st == "ok" else []})
-    cold = _lanelet(2, le, c, r)                       # never asked for .distance before the first interpolation
+
+
+def _interp_events(pick, c, le, r, sns, sd, den, sigpref, ev):
+    """interpolate_position at every arc length sn/sd of sns on the lanelet pick(n); logs what came back."""
+    cum = _int_cum(c)
     for n, sn in enumerate(sns):
-        obj = cold if n == len(sns) // 2 else la
+        obj = pick(n)
         # integral arc lengths are passed alternately as int and as float (both are real numbers)
         arg = sn // sd if (sn % sd == 0 and n % 2 == 1) else sn / sd
         st, res = _call(lambda: obj.interpolate_position(arg))
@@ -246,17 +273,49 @@ def _exec_poly(case):
                     pts.append([kx, ky, ex & ey & int(len(p) == 2)])
             except Exception as ex:
                 st, pts = "exc:result:" + type(ex).__name__, [[0, 0, 0]] * 3
-        if sn == 0:
-            shape = "at-start"
-        elif sn == sd * cum[-1]:
-            shape = "at-end"
-        elif sn % sd == 0 and sn // sd in cum:
-            shape = "at-vertex"
-        else:
-            shape = "interior"
-        ev.append({"op": "interpolate", "sig": "interpolate/" + shape, "st": st, "c": c, "l": le, "r": r,
+        ev.append({"op": "interpolate", "sig": sigpref + _shape(sn, sd, cum), "st": st, "c": c, "l": le, "r": r,
                    "sn": sn, "sd": sd, "den": den, "res": pts})
+
+
+def _exec_poly(case):
+    c, le, r, sd, den = case["c"], case["l"], case["r"], case["sd"], case["den"]
+    cum = _int_cum(c)
+    sns = case.get("sns") or list(range(0, sd * cum[-1] + 1))
+    ev = []
+    la = _lanelet(1, le, c, r)
+    _distance_event(la, c, den, "distance", ev)
+    cold = _lanelet(2, le, c, r)                       # never asked for .distance before the first interpolation
+    _interp_events(lambda n: cold if n == len(sns) // 2 else la, c, le, r, sns, sd, den, "interpolate/", ev)
     return ev
+
+
+def _as_lanelet_events(m, tag, ev):
+    """A lanelet produced by the library (merge result) is a lanelet: the same distance / interpolate_position
+    events as for any lanelet, judged against ITS OWN vertices.  Emitted only when these vertices are integer points
+    with positive integer segment lengths (otherwise the spec has no exact oracle; the merge event itself carries
+    the vertices).  Arc lengths: 0, every vertex, every segment midpoint, full length (half-integer grid)."""
+    try:
+        c, ec = _verts(m.center_vertices)
+        le, el = _verts(m.left_vertices)
+        r, er = _verts(m.right_vertices)
+    except Exception:
+        return
+    if not (ec & el & er) or len(c) < 2 or len(le) != len(c) or len(r) != len(c):
+        return
+    hs = []
+    for (x0, y0), (x1, y1) in zip(c, c[1:]):
+        d2 = (x1 - x0) ** 2 + (y1 - y0) ** 2
+        h = math.isqrt(d2)
+        if h == 0 or h * h != d2:
+            return
+        hs.append(h)
+    sd, den = 2, 2
+    for h in hs:
+        den = _lcm(den, 2 * h)
+    cum = _int_cum(c)
+    sns = sorted({2 * v for v in cum} | {2 * cum[k] + hs[k] for k in range(len(hs))})
+    _distance_event(m, c, den, "distance/" + tag, ev)
+    _interp_events(lambda n: m, c, le, r, sns, sd, den, "interpolate/" + tag + "/", ev)
 
 
 def _verts(arr):
@@ -270,24 +329,60 @@ def _verts(arr):
 
 
 def _exec_merge(case):
+    from commonroad.scenario.lanelet import Lanelet
     a, b = case["a"], case["b"]
     ev = []
-    for order in ("fwd", "swapped"):
-        la = _lanelet(1, a["l"], a["c"], a["r"], successor=[2])
-        lb = _lanelet(2, b["l"], b["c"], b["r"], predecessor=[1])
-        from commonroad.scenario.lanelet import Lanelet
-        st, m = _call(lambda: Lanelet.merge_lanelets(la, lb) if order == "fwd" else Lanelet.merge_lanelets(lb, la))
-        res, rlen = {"l": [], "c": [], "r": [], "ex": 0}, [0, 0]
-        if st == "ok":
+    for order in ("fwd", "swapped"):                   # the docstring / statement do not depend on the argument order
+        for warm in (0, 1):                            # the parts' cached .distance: never read / read before merging
+            la = _lanelet(1, a["l"], a["c"], a["r"], successor=[2])
+            lb = _lanelet(2, b["l"], b["c"], b["r"], predecessor=[1])
+            if warm:
+                _call(lambda: (la.distance, lb.distance))
+            st, m = _call(lambda: Lanelet.merge_lanelets(la, lb) if order == "fwd" else Lanelet.merge_lanelets(lb, la))
+            res, rlen = {"l": [], "c": [], "r": [], "ex": 0}, [0, 0]
+            if st == "ok":
+                try:
+                    vl, el = _verts(m.left_vertices)
+                    vc, ec = _verts(m.center_vertices)
+                    vr, er = _verts(m.right_vertices)
+                    res = {"l": vl, "c": vc, "r": vr, "ex": el & ec & er}
+                    rlen = list(_grid(m.distance[-1], 1))
+                except Exception as ex:
+                    st = "exc:result:" + type(ex).__name__
+            ev.append({"op": "merge", "sig": "merge/" + order, "st": st, "a": a, "b": b, "res": res, "rlen": rlen,
+                       "warm": warm})
+            if st == "ok":
+                _as_lanelet_events(m, "merged-" + order, ev)
+    return ev
+
+
+def _exec_chain(case):
+    """lanes joined end to start, ids 1..k, linked i -> i+1: route merging forwards from 1 and backwards from k;
+    every merged lanelet returned is then treated as a lanelet."""
+    from crv import gamma
+    from commonroad.scenario.lanelet import Lanelet
+    lanes = case["lanes"]
+    k = len(lanes)
+    ev = []
+    for warm in (0, 1):
+        lls = [_lanelet(i + 1, ln["l"], ln["c"], ln["r"], predecessor=[i] if i >= 1 else [],
+                        successor=[i + 2] if i + 2 <= k else []) for i, ln in enumerate(lanes)]
+        if warm:
+            for x in lls:
+                _call(lambda: x.distance)
+        net = gamma.network(lls)
+        for tag, f, start in (("merged-succ-route", Lanelet.all_lanelets_by_merging_successors_from_lanelet, lls[0]),
+                              ("merged-pred-route", Lanelet.all_lanelets_by_merging_predecessors_from_lanelet,
+                               lls[-1])):
+            st, res = _call(lambda: f(start, net, case["range"]))
+            if st != "ok":
+                continue                               # these helpers are not named by the statement: no clause
             try:
-                vl, el = _verts(m.left_vertices)
-                vc, ec = _verts(m.center_vertices)
-                vr, er = _verts(m.right_vertices)
-                res = {"l": vl, "c": vc, "r": vr, "ex": el & ec & er}
-                rlen = list(_grid(m.distance[-1], 1))
-            except Exception as ex:
-                st = "exc:result:" + type(ex).__name__
-        ev.append({"op": "merge", "sig": "merge/" + order, "st": st, "a": a, "b": b, "res": res, "rlen": rlen})
+                ms = list(res[0])
+            except Exception:
+                continue
+            for m in ms[:4]:
+                _as_lanelet_events(m, tag, ev)
     return ev
 
 
@@ -339,6 +434,8 @@ def execute(case):
         return {"ev": _exec_poly(case)}
     if kind == "merge":
         return {"ev": _exec_merge(case)}
+    if kind == "chain":
+        return {"ev": _exec_chain(case)}
     return {"ev": _exec_graph(case)}
 
 
